@@ -1,5 +1,6 @@
 import Pkgcore.Base.Proto
 import Pkgcore.Spec.C01
+import Pkgcore.Model.C01Lex
 namespace Pkgcore.Driver.C01
 open Lean Pkgcore.Proto Pkgcore.C01
 
@@ -43,5 +44,21 @@ def handle : Handler := fun cmd j =>
     match opVals op with
     | none => pure (Json.str "err")
     | some (vals, droprev) => pure (toJson (versionMatch vals droprev neg ver rev pv prev))
+  | "c01.lex" => do
+    let s ← chars j "s"
+    match lexVer s with
+    | none => pure Json.null
+    | some v => pure (Json.mkObj [
+        ("comps", ofStrs v.comps),
+        ("letter", match v.letter with | none => Json.null | some c => Json.str c.toString),
+        ("sufs", Json.arr (v.sufs.map fun x => Json.arr #[Json.str x.1.name, ofChars x.2]).toArray)])
+  | "c01.vercmpstr" => do
+    let s1 ← chars j "s1"
+    let s2 ← chars j "s2"
+    let r1 ← parseRev j "r1"
+    let r2 ← parseRev j "r2"
+    match verCmpStr s1 r1 s2 r2 with
+    | none => pure Json.null
+    | some o => pure (toJson (ordToInt o))
   | _ => none
 end Pkgcore.Driver.C01
